@@ -15,13 +15,13 @@ let int_of_byte (b : byte) = Hashtbl.find itab b
 let to_string (l : byte list) =
   let b = Buffer.create 64 in
   List.iter (fun x -> Buffer.add_char b (Char.chr (int_of_byte x))) l; Buffer.contents b
-let of_string (s : string) = List.init (String.length s) (fun i -> btab.(Char.code s.[i]))
+let of_string (s : Stdlib.String.t) = List.init (Stdlib.String.length s) (fun i -> btab.(Char.code s.[i]))
 let hex_of_string s =
-  let b = Buffer.create (2 * String.length s) in
-  String.iter (fun c -> Buffer.add_string b (Printf.sprintf "%02x" (Char.code c))) s; Buffer.contents b
+  let b = Buffer.create (2 * Stdlib.String.length s) in
+  Stdlib.String.iter (fun c -> Buffer.add_string b (Printf.sprintf "%02x" (Char.code c))) s; Buffer.contents b
 let string_of_hex h =
-  let n = String.length h / 2 in
-  String.init n (fun i -> Char.chr (int_of_string ("0x" ^ String.sub h (2 * i) 2)))
+  let n = Stdlib.String.length h / 2 in
+  Stdlib.String.init n (fun i -> Char.chr (int_of_string ("0x" ^ Stdlib.String.sub h (2 * i) 2)))
 let hex l = let s = hex_of_string (to_string l) in if s = "" then "-" else s
 let unhex h = if h = "-" then [] else of_string (string_of_hex h)
-let split_on c s = if s = "" then [] else String.split_on_char c s
+let split_on c s = if s = "" then [] else Stdlib.String.split_on_char c s
